@@ -259,6 +259,20 @@ def run_shard(spec):
             res["evaluations"] += 1
             res["distinct"].append(f"literal|{how}|{site}|{'in' if -65536 < v < 65536 else 'out'}")
             res["sets"]["kinds"].append(f"literal-{how}")
+        # a second base setting hidden in a block that is only compiled while the written base expression is being evaluated
+        for i in range(6 if spec["tier"] == "quick" else 60):
+            k1, k2 = rnd.choice([0o1000, 0o2000, 0o400]), rnd.choice([0o2000, 0o3000, 0o40000])
+            inner = rnd.choice([f". = {k2:o}", f".link {k2:o}", f" nop\n . = {k2:o}\n"])
+            n = rnd.choice([1, 1, 2])
+            expr = rnd.choice([f"{k1:o} + e9 - s9", f"e9 - s9 + {k1:o}", f"{k1:o} + (e9 - s9) * 2", f"{k1:o} + sz9"])
+            pre = rnd.choice(["", "", " .byte 1, 2\n .even\n"]) if not inner.startswith(" nop") else ""
+            lines = [f"s9: .repeat n9 {{ {inner} }}", "e9: nop", f"n9 = {n}", "sz9 = e9 - s9"]
+            site = rnd.choice([f".link {expr}", f".link {expr}"])
+            text = pre + "\n".join(lines + [site] if rnd.random() < 0.7 else lines[:2] + [site] + lines[2:]) + "\n"
+            case = {"literal": "two-bases", "text": text, "value": 0, "how": "two-bases", "site": "hidden"}
+            res["violations"].extend(run_case(case, cnt, root))
+            res["evaluations"] += 1
+            res["distinct"].append(f"two-bases|{inner.split()[0]}|{n}|{expr.split()[0]}")
     finally:
         shutil.rmtree(root, ignore_errors=True)
     return res
@@ -266,6 +280,16 @@ def run_shard(spec):
 
 def run_literal(case, cnt):
     from vlib import asm
+    if case["how"] == "two-bases":
+        o = asm.assemble([("/c12/two.mac", case["text"])])
+        cnt["hidden_second_bases"] = cnt.get("hidden_second_bases", 0) + 1
+        if o.cls == "stall":
+            return []
+        if o.cls != "fail" or not o.errors:
+            return [{"what": f"a base set inside a lazily compiled block AND by the written directive: expected a reported error, got {o.brief()} "
+                             f"base {oct(o.base) if o.cls == 'ok' else None}; source {case['text']!r}", "case": case}]
+        cnt["rejections_confirmed"] += 1
+        return []
     lit, v, site = case["literal"], case["value"], case["site"]
     body = ".byte 1, 2, 3\n"
     src = {"link-first": f".link {lit}\n{body}", "dot-first": f". = {lit}\n{body}", "link-last": f"{body}.link {lit}\n"}[site]
